@@ -5,3 +5,4 @@ ACTION_CONSTRAINT Drivable
 CHECK_DEADLOCK FALSE
 CONSTANTS
   Record = TRUE
+  ExitOnAcceptNone = FALSE
